@@ -181,6 +181,43 @@ func cmdCtx(args []string) {
 		cancel()
 		settle(base)
 	}
+	// 1b. the same with a FOREIGN context type (own Done channel, not built on the standard library's contexts, no AfterFunc method): still
+	//     alive when Run returns — nothing may be left waiting on it — and it must still cancel a running program
+	{
+		fc := newForeignCtx()
+		okAll := true
+		for i := 0; i < *runs; i++ {
+			m := z80.MapMemory{}
+			m.Put(0x0100, 0x00, 0x76)
+			cpu := &z80.CPU{States: z80.States{SPR: z80.SPR{PC: 0x0100}}, Memory: m}
+			if i%2 == 1 {
+				cpu.BreakPoints = map[uint16]struct{}{0x0101: {}}
+			}
+			err := cpu.Run(fc)
+			if (i%2 == 0 && err != nil) || (i%2 == 1 && err != z80.ErrBreakPoint) {
+				okAll = false
+			}
+		}
+		after := settle(base + 2)
+		cpu := loopCPU()
+		go func() { time.Sleep(2 * time.Millisecond); fc.cancel() }()
+		done := make(chan error, 1)
+		go func() { done <- cpu.Run(fc) }()
+		var err error
+		returned := true
+		select {
+		case err = <-done:
+		case <-time.After(3 * time.Second):
+			returned = false
+		}
+		fc.cancel()
+		if !returned {
+			<-done
+		}
+		report("leak-foreign-context", okAll && after <= base+2 && returned && errors.Is(err, context.Canceled),
+			fmt.Sprintf("runs=%d goroutines_before=%d after=%d (context still alive); then cancelled during a loop: returned_within_3s=%v err=%v", *runs, base, after, returned, err))
+		settle(base)
+	}
 	// 2. cancelled before the call
 	for i := 0; i < 20; i++ {
 		ctx, cancel := context.WithCancel(context.Background())
@@ -338,6 +375,31 @@ func cmdFlags() {
 		}
 	}
 	fmt.Printf("done get=%d set=%d reset=%d u16=%d const=%d triples=16777216 values=65536\n", bad["get"], bad["set"], bad["reset"], bad["u16"], bad["const"])
+}
+
+// foreignCtx: a context.Context that owes nothing to the standard library's implementations
+type foreignCtx struct {
+	mu   sync.Mutex
+	done chan struct{}
+	err  error
+}
+
+func newForeignCtx() *foreignCtx                  { return &foreignCtx{done: make(chan struct{})} }
+func (c *foreignCtx) Deadline() (time.Time, bool) { return time.Time{}, false }
+func (c *foreignCtx) Done() <-chan struct{}       { return c.done }
+func (c *foreignCtx) Value(any) any               { return nil }
+func (c *foreignCtx) Err() error {
+	c.mu.Lock()
+	defer c.mu.Unlock()
+	return c.err
+}
+func (c *foreignCtx) cancel() {
+	c.mu.Lock()
+	defer c.mu.Unlock()
+	if c.err == nil {
+		c.err = context.Canceled
+		close(c.done)
+	}
 }
 
 // switchMem: NOP; JR -3 at 0100h (a two-instruction loop), until told to read as HALT everywhere
